@@ -84,6 +84,10 @@ type vfC13Run struct {
 	open bool
 	w    *vfC13World
 
+	// family Witnessed: one grant source per channel, the user is loaded after every grant change,
+	// pulls wait while a back-fill shape is pending
+	witnessed bool
+
 	defColl bool
 
 	forcedPulls   int
@@ -119,7 +123,13 @@ func (r *vfC13Run) step(o vfC13Op) {
 	}
 	post := w.M.Clone()
 	post.Apply(o, w.M.Seq+1, "next")
-	if !r.open {
+	if r.witnessed {
+		for _, srcs := range post.Sources(vfC13Client) {
+			if len(srcs) > 1 {
+				r.rt.Skip() // one grant source per channel in this family
+			}
+		}
+	} else if !r.open {
 		// S-monotone: one operation moves the client user's sources of any one channel in one
 		// direction only, and a pull follows directly (below)
 		if w.M.MixedSourceChange(post, vfC13Client) {
@@ -136,13 +146,20 @@ func (r *vfC13Run) step(o vfC13Op) {
 	if err != nil {
 		r.infra(err)
 	}
-	if !r.open && w.M.Fingerprint(vfC13Client) != before {
+	if r.witnessed {
+		if w.M.Fingerprint(vfC13Client) != before {
+			if err := w.Do(vfC13Op{Kind: "load"}); err != nil {
+				r.infra(err)
+			}
+		}
+	} else if !r.open && w.M.Fingerprint(vfC13Client) != before {
 		r.forcedPulls++
 		r.pull(vfC13DrawLimits(r.rt))
 	}
 }
 
 func vfC13Case(t *testing.T, rt *rapid.T, rec *kit.Rec, test string, open bool) {
+	witnessed := test == "Witnessed"
 	defColl := rapid.Bool().Draw(rt, "defaultCollection")
 	w, err := vfC13Open(t, defColl)
 	if err != nil {
@@ -151,7 +168,7 @@ func vfC13Case(t *testing.T, rt *rapid.T, rec *kit.Rec, test string, open bool) 
 		rt.Skip()
 	}
 	defer w.Close()
-	r := &vfC13Run{t: t, rt: rt, rec: rec, test: test, open: open, w: w, defColl: defColl}
+	r := &vfC13Run{t: t, rt: rt, rec: rec, test: test, open: open, w: w, defColl: defColl, witnessed: witnessed}
 	r.installAvoidance()
 
 	// ---- initial principals. Monotone: both roles exist before any document; open: maybe not.
@@ -165,6 +182,10 @@ func vfC13Case(t *testing.T, rt *rapid.T, rec *kit.Rec, test string, open bool) 
 	}
 	uo := vfC13Op{Kind: "user", ID: vfC13Client, SetChans: true, PChans: vfC13Subset(rt, "init.u.chans", vfC13AllChans, 0, 2),
 		SetRoles: true, PRoles: vfC13Subset(rt, "init.u.roles", vfC13RoleIDs, 0, 1)}
+	if witnessed {
+		uo.PChans = []string{}
+		uo.PRoles = []string{}
+	}
 	if err := w.Do(uo); err != nil {
 		r.infra(err)
 	}
@@ -178,7 +199,14 @@ func vfC13Case(t *testing.T, rt *rapid.T, rec *kit.Rec, test string, open bool) 
 		}
 		return out
 	}
-	put := func(rt *rapid.T) { r.rt = rt; r.step(vfC13DrawPut(rt)) }
+	put := func(rt *rapid.T) {
+		r.rt = rt
+		o := vfC13DrawPut(rt)
+		if witnessed {
+			o.GU, o.GC, o.RU, o.RR = nil, nil, nil, nil // grants come from admin role assignments only
+		}
+		r.step(o)
+	}
 	del := func(rt *rapid.T) {
 		r.rt = rt
 		live := liveDocs()
@@ -235,7 +263,20 @@ func vfC13Case(t *testing.T, rt *rapid.T, rec *kit.Rec, test string, open bool) 
 		}
 		r.step(vfC13Op{Kind: "delrole", ID: rapid.SampledFrom(live).Draw(rt, "role")})
 	}
-	pull := func(rt *rapid.T) { r.rt = rt; r.pull(vfC13DrawLimits(rt)) }
+	pull := func(rt *rapid.T) {
+		r.rt = rt
+		if sig := r.pullDeferred(); sig != "" {
+			rec.Excluded(sig + " (pull deferred)")
+			rt.Skip()
+		}
+		r.pull(vfC13DrawLimits(rt))
+	}
+	load := func(rt *rapid.T) {
+		r.rt = rt
+		if err := w.Do(vfC13Op{Kind: "load"}); err != nil {
+			r.infra(err)
+		}
+	}
 
 	actions := map[string]func(*rapid.T){
 		"put1": put, "put2": put, "put3": put, "put4": put, "put5": put,
@@ -244,13 +285,24 @@ func vfC13Case(t *testing.T, rt *rapid.T, rec *kit.Rec, test string, open bool) 
 		"userRoles":  userRoles,
 		"roleChans1": roleChans, "roleChans2": roleChans,
 		"pull1": pull, "pull2": pull, "pull3": pull,
+		"load": load,
 	}
 	if open {
 		actions["delRole"] = delRole
 	}
+	if witnessed {
+		delete(actions, "userChans1")
+		delete(actions, "userChans2")
+		actions["userRoles2"] = userRoles
+		actions["userRoles3"] = userRoles
+	}
 	rt.Repeat(actions)
 	r.rt = rt
-	r.pull(vfC13DrawLimits(rt))
+	if sig := r.pullDeferred(); sig != "" {
+		rec.Excluded(sig + " (final pull skipped)")
+	} else {
+		r.pull(vfC13DrawLimits(rt))
+	}
 
 	// ---- what did this case exercise
 	var revoked, removed, backfill, paged, interrupted, spans, changedPulls, interesting int
@@ -302,6 +354,13 @@ func TestVerif_C13_Monotone(t *testing.T) {
 	defer rec.Flush()
 	defer SuspendSequenceBatching()()
 	rapid.Check(t, func(rt *rapid.T) { vfC13Case(t, rt, rec, "Monotone", false) })
+}
+
+func TestVerif_C13_Witnessed(t *testing.T) {
+	rec := kit.New("C13", "Witnessed")
+	defer rec.Flush()
+	defer SuspendSequenceBatching()()
+	rapid.Check(t, func(rt *rapid.T) { vfC13Case(t, rt, rec, "Witnessed", false) })
 }
 
 func TestVerif_C13_Open(t *testing.T) {
